@@ -15,8 +15,8 @@ def _replace():
 
 def run(ctx):
     quick = ctx.tier == "quick"
-    n_choose = 3000 if quick else 60000
-    n_runq = 1500 if quick else 40000
+    n_choose = 3000 if quick else 40000
+    n_runq = 1500 if quick else 30000
     stride = 16 if quick else 1
 
     def stages(ctx, mult, suffix, off):
